@@ -12,6 +12,11 @@ def _strip(o):
     return o
 
 
+def valid_first(n):
+    """a valid draw sequence for shuffling n items: the identity choice at every step (randbelow(i+1) = i)"""
+    return list(range(n - 1, 0, -1)) if n > 1 else []
+
+
 class GenProp(Prop):
     budgets = {"quick": 260, "thorough": 20000}
     search_budget = {"quick": 600, "thorough": 5000}
@@ -19,6 +24,18 @@ class GenProp(Prop):
                    "build/naming callbacks are arbitrary functions; the library shapes exist verbatim on both sides"]
     model_scope = ("modelled: gcm_algorithm_fast.py, gcm_algorithm_custom_motifs.py, infinite_sequence, clique/cycle/diamond motif "
                    "callbacks; factory/main/network dispatch is checked by running all construction paths on the same draws")
+
+    def exhaustive(self, tier):
+        """corner sequences every run sees, for the fast and the custom generator: nobody has a stub (N = 1, 4), a single vertex
+        carrying a whole motif, one motif instance per topology"""
+        for jds, sizes in (([[0]], [2]), ([[0, 0]] * 4, [2, 3]), ([[2]], [2]), ([[1, 0], [1, 0], [0, 3]], [2, 3])):
+            T = len(sizes)
+            draws = [valid_first(sum(r[k] for r in jds)) for k in range(T)]
+            yield {"kind": "fast", "jds": jds, "sizes": sizes, "builds": ["clique"] * T, "names": [f"t{k}" for k in range(T)],
+                   "draws": draws, "handshake": True, "as_tuple": [False] * T}
+            yield {"kind": "custom", "jds": jds, "sizes": sizes, "orbits": [[k] for k in range(T)], "builds": ["clique"] * T,
+                   "names": [[f"t{k}"] * (sizes[k] * (sizes[k] - 1) // 2) for k in range(T)], "draws": draws, "handshake": True,
+                   "as_tuple": [False] * T}
 
     def gen(self, rng, i, tier):
         r = rng.random()
